@@ -345,7 +345,19 @@ def r_singleton(e, R):
         lockarg = c.args[0] if c.args else None
         R.check(lockarg is not None and e.lock_token(fac, lockarg) == lock, "R-SINGLETON", f"{fac.short}: the executor shares the factory lock for submit/resize",
                 fac.short, norm(c)[:60], "the executor's submit/resize lock is not the factory lock", e.loc(fac, c))
-        R.check(isinstance(st, ast.Assign) and any(isinstance(t, ast.Name) and t.id in globs for t in st.targets), "R-SINGLETON",
+        # ... directly (`_executor = executor = cls(...)`) or through the local it was bound to (`executor = cls(...); _executor = executor`)
+        direct = isinstance(st, ast.Assign) and any(isinstance(t, ast.Name) and t.id in globs for t in st.targets)
+        via = False
+        if isinstance(st, ast.Assign) and not direct:
+            locs = {t.id for t in st.targets if isinstance(t, ast.Name)}
+            fg_ = e.cfg(fac)
+            stn = [n for n in fg_.nodes if n.kind == "stmt" and n.ast is st]
+            for n2 in fg_.nodes:
+                if n2.kind == "stmt" and isinstance(n2.ast, ast.Assign) and isinstance(n2.ast.value, ast.Name) and n2.ast.value.id in locs \
+                        and any(isinstance(t, ast.Name) and t.id in globs for t in n2.ast.targets) and stn \
+                        and fg_.escape_path(stn[0], lambda x, n2=n2: x is n2, use_exc=False) is None:
+                    via = True
+        R.check(direct or via, "R-SINGLETON",
                 f"{fac.short}: the new executor is stored as the singleton", fac.short, norm(st)[:60], "the new executor is not recorded as the singleton",
                 e.loc(fac, c))
     # replace branch order: shutdown(wait=True) -> reset globals -> recursive call (returned)
